@@ -15,6 +15,32 @@ double bspline(const double* knots, double x, int i, int n);
 double bspline_deriv(const double* knots, double x, int i, int n, unsigned order);
 
 /*
+ * The same as bspline() and bspline_deriv(), but evaluated on the polynomial
+ * piece of the knot interval [knots[piece], knots[piece+1]] instead of the one
+ * selected by the half-open interval test, so that the one-sided convention
+ * used by bsplvb_simple() at the top of the supported region can be followed.
+ */
+double bspline_on_piece(const double* knots, double x, int i, int n, int piece);
+double bspline_deriv_on_piece(const double* knots, double x, int i, int n,
+    unsigned order, int piece);
+
+/*
+ * The knot interval on which bsplvb_simple(), bspline_nonzero() and
+ * bspline_deriv_nonzero() evaluate for a given `left' (see below).
+ */
+inline int bspline_piece(const double* knots, const unsigned nknots,
+    double x, int left, int n)
+{
+	if (left == n)
+		while (left >= 0 && x < knots[left])
+			left--;
+	if (left == int(nknots)-n-2)
+		while (left < int(nknots)-1 && x > knots[left+1])
+			left++;
+	return left;
+}
+
+/*
  * A brain-dead reimplementation of de Boor's BSPLVB, which generates
  * the values of the non-zero B-splines at x from the bottom up without
  * unnecessarily recalculating terms. 
